@@ -825,6 +825,14 @@ pub fn check_forest(ch: &mut Choices, cx: &mut Ctx) -> R {
     let out = match convert_dwarf(&map, d.big, stepwise) {
         Ok(o) => o,
         Err(e) => {
+            // writing each unit as soon as it is converted is a way of doing the same conversion: it may not refuse what
+            // the conversion written in one go accepts
+            if incremental {
+                INCREMENTAL_WRITE.with(|c| c.set(false));
+                if convert_dwarf(&map, d.big, stepwise).is_ok() {
+                    fail!("c12/forest/unit-at-a-time-write-refused", "{} - although the same conversion written in one go succeeds", e);
+                }
+            }
             cx.label(if e.starts_with("convert") { "forest: conversion refused" } else { "forest: write refused" });
             cx.label(intern(&format!("forest refused: {}", e)));
             return Ok(());
